@@ -1,3 +1,4 @@
+import RedactVerif.Props.TransPP
 import RedactVerif.Props.L2
 import RedactVerif.Props.FactsClassify
 import RedactVerif.Proofs.U.Top
